@@ -83,8 +83,10 @@ def compare(rec, resp, got_state):
           'diff': diff_paths(got_state, rec['st'])[:12]}
 
 
-def _init_worker(conf, backend, scratch):
-  import world  # heavy import happens once per worker process
+def _init_worker(conf, backend, scratch, binding='world'):
+  import importlib
+  world = importlib.import_module(binding)  # heavy import happens once per worker process
+  _W['binding'] = binding
   _W['world'] = world
   _W['conf'] = conf
   _W['backend'] = backend
@@ -94,6 +96,8 @@ def _init_worker(conf, backend, scratch):
 
 def _fresh_world():
   world = _W['world']
+  if _W['binding'] != 'world':
+    return world.World(_W['conf'], backend=_W['backend'], scratch=_W['scratch'])
   if _W['backend'] == 'ram':
     return world.World(_W['conf'], backend='ram')
   if _W['backend'] == 'sqlfile':
@@ -114,7 +118,9 @@ def _run_chunk(recs):
       resp = w.run(c)
       calls += 1
     got = w.project()
-    if _W['backend'] == 'sqlfile':
+    if _W['binding'] != 'world':
+      w.close()
+    elif _W['backend'] == 'sqlfile':
       try:
         w.svc.datastore._engine.dispose()
         os.unlink(w.svc.datastore._engine.url.database)
@@ -144,7 +150,8 @@ MUTATING = {'CreateStudy', 'DeleteStudy', 'SetStudyState', 'CreateTrial', 'AddMe
             'DeleteTrial', 'SuggestTrials', 'CheckEarlyStopping', 'UpdateMetadata'}
 
 
-def replay(records, conf, backend='ram', scratch=None, procs=None, relevant=None, sample=None, seed=0):
+def replay(records, conf, backend='ram', scratch=None, procs=None, relevant=None, sample=None, seed=0, binding='world',
+           mutating=None):
   """records: list of {'hist','st','resp'} (non-empty hist).  Returns ReplayResult."""
   import random
   res = ReplayResult()
@@ -157,7 +164,7 @@ def replay(records, conf, backend='ram', scratch=None, procs=None, relevant=None
   ctx = multiprocessing.get_context('fork')
   rng = random.Random(seed)
   with cf.ProcessPoolExecutor(max_workers=procs, mp_context=ctx, initializer=_init_worker,
-                              initargs=(conf, backend, scratch)) as ex:
+                              initargs=(conf, backend, scratch, binding)) as ex:
     for L in sorted(by_len):
       todo = []
       for i, r in by_len[L]:
@@ -176,7 +183,7 @@ def replay(records, conf, backend='ram', scratch=None, procs=None, relevant=None
           res.histories += 1
           r = records[idx]
           rpcs = [c['rpc'] for c in r['hist']]
-          if any(x in MUTATING for x in rpcs) and (relevant is None or any(x in relevant for x in rpcs)):
+          if any(x in (mutating or MUTATING) for x in rpcs) and (relevant is None or any(x in relevant for x in rpcs)):
             res.nontrivial.add(canon(r['hist']))
           if d is not None:
             bad.add(tuple(canon(c) for c in r['hist']))
